@@ -114,6 +114,26 @@ func addSweepJobs(c *Check, prop string, only func(name string) bool) []sweepLin
 		c.Add(&Job{Label: "sweep/" + l.Name, Pkg: rootPkg, Func: sweepFuncs[l.Kind], Sweep: true, NoReplay: true,
 			Tune: func(cf *Config) { tune(cf); cf.StrParams["sweep.lint"] = l.Name }})
 	}
+	if c.Quick() && os.Getenv("SYMGO_NO_DEEPEN") == "" {
+		// second pass at lists <= 2 under a short budget: what it finds counts, what it does not finish does
+		// not change a lint's "decided at lists <= 1" status (accumulation / ordering / duplicate defects need
+		// two elements to show)
+		for _, l := range lints {
+			l := l
+			if only != nil && !only(l.Name) {
+				continue
+			}
+			tune := sweepTune(c, prop)
+			c.Add(&Job{Label: "sweep2/" + l.Name, Pkg: rootPkg, Func: sweepFuncs[l.Kind], Sweep: true, NoReplay: true,
+				KeyOf: func(f *AssertFail) string { return "sweep/" + l.Name + ": " + f.Msg },
+				Tune: func(cf *Config) {
+					tune(cf)
+					cf.StrParams["sweep.lint"] = l.Name
+					cf.ListBound = 2
+					cf.Deadline = time.Now().Add(8 * time.Second)
+				}})
+		}
+	}
 	return lints
 }
 
@@ -130,9 +150,19 @@ func init() {
 // sweepPost summarises the per-lint outcomes (decided / not decided and why).
 func sweepPost(c *Check) {
 	decided, undecided := 0, 0
+	deep2, deep2Paths := 0, 0
 	reasons := map[string][]string{}
 	for _, jr := range c.Results {
 		if jr == nil || !jr.Job.Sweep {
+			continue
+		}
+		if strings.HasPrefix(jr.Job.Label, "sweep2/") {
+			if jr.Res != nil {
+				deep2Paths += len(jr.Res.Paths)
+				if !jr.Res.Truncated && jr.Err == "" {
+					deep2++
+				}
+			}
 			continue
 		}
 		name := strings.TrimPrefix(jr.Job.Label, "sweep/")
@@ -171,6 +201,7 @@ func sweepPost(c *Check) {
 			reasons[why] = append(reasons[why], name)
 		}
 	}
+	c.Extra["second_pass_lists_le_2"] = map[string]int{"lints_finished_within_budget": deep2, "paths": deep2Paths}
 	c.Extra["lints_decided"] = decided
 	c.Extra["lints_not_decided"] = undecided
 	c.Extra["not_decided_by_reason"] = reasons
@@ -197,7 +228,7 @@ func monitorFinding(c *Check, jr *JobResult, p *PathRec, what string) {
 	if usesUnreplayable(st) {
 		conf = "no"
 	}
-	c.Findings = append(c.Findings, &Finding{Key: jr.Job.Label + ": " + what, Msg: what, Func: jr.Job.Func, Pkg: jr.Job.Pkg, Kind: "side", Confirmed: conf, Site: p.Site,
+	c.Findings = append(c.Findings, &Finding{Key: strings.Replace(jr.Job.Label, "sweep2/", "sweep/", 1) + ": " + what, Msg: what, Func: jr.Job.Func, Pkg: jr.Job.Pkg, Kind: "side", Confirmed: conf, Site: p.Site,
 		ReplayOut: "observed by the engine's monitor on a path that passes through uninterpreted stubs"})
 }
 
@@ -206,7 +237,7 @@ func eachSweepPath(c *Check, f func(jr *JobResult, name string, p *PathRec)) {
 		if jr == nil || jr.Res == nil || !jr.Job.Sweep {
 			continue
 		}
-		name := strings.TrimPrefix(jr.Job.Label, "sweep/")
+		name := strings.TrimPrefix(strings.TrimPrefix(jr.Job.Label, "sweep/"), "sweep2/")
 		for i := range jr.Res.Paths {
 			p := &jr.Res.Paths[i]
 			if p.End == "infeasible" {
@@ -377,6 +408,21 @@ func init() {
 							cf.Deadline = time.Now().Add(60 * time.Second)
 						}})
 				}
+			}
+			if c17Selected(l.Name) && strings.Contains(l.Name, "uri") {
+				pv := 2
+				if strings.Contains(l.Name, "ian") {
+					pv = 3
+				}
+				c.Add(&Job{Label: "order/uripool/" + l.Name, Pkg: rootPkg, Func: "VerifC17Order", Sweep: true, NoReplay: true,
+					KeyOf: func(f *AssertFail) string { return "order/san/" + l.Name + ": " + f.Msg },
+					Tune: func(cf *Config) {
+						base(cf)
+						cf.StrParams["sweep.lint"] = l.Name
+						cf.StrParams["c17.what"] = "san"
+						cf.Bounds["param:c17.pool"] = pv
+						cf.Deadline = time.Now().Add(60 * time.Second)
+					}})
 			}
 			if extOrderLints[l.Name] {
 				c.Add(&Job{Label: "order/ext/" + l.Name, Pkg: rootPkg, Func: "VerifC17Order", Sweep: true, NoReplay: true,
